@@ -178,3 +178,21 @@ def run(ctx):
         for op in ("pie", "pbkw", "pke"):
             check(ctx, be, op)
     core_plumbing(ctx)
+
+# ---- R06.7 (shared with C07 R07.3): every Err exit of an undo function is one of the stated conditions (length, header, the tag
+# verification, library-reported, reviewed parameter validation): no extra computation on unauthenticated header fields decides
+# the outcome before the tag is checked.
+_run_c06 = run
+def run(ctx):
+    _run_c06(ctx)
+    import c07
+    class Scratch:
+        def __init__(s): s.findings = []; s.world = ctx.world; s.crates = ctx.crates; s.analysed = {"functions": 0, "paths": 0, "call_sites": 0}; s.notes = []; s.tier = ctx.tier; s.facts_dir = ctx.facts_dir
+        def add(s, rule, k, ok, detail="", site=None, facts=None): s.findings.append((rule, k, ok, detail, site))
+        def sample(s, x): pass
+    sc = Scratch()
+    c07.run(sc)
+    for (rule, k, ok, detail, site) in sc.findings:
+        if rule == "R07.3":
+            ctx.add("R06.7", "C06/undo-exits/" + k.split("/", 2)[-1], ok, detail, site)
+FLOORS["R06.7"] = 18
